@@ -31,6 +31,26 @@ def main():
     ctx = Ctx(pid, tier, seed)
     exit_code = 0
     core.cap_own_memory()
+    # watchdog: a check that does not finish (a changed implementation may loop where no per-call alarm is armed) is reported as
+    # a violation with the stack of the stuck call, instead of hanging the caller
+    import threading, faulthandler, io as _io
+    limit = int(os.environ.get("VERIF_WATCHDOG_S", "1500" if tier == "quick" else "14400"))
+
+    def _watchdog():
+        import traceback as _tb, sys as _sys
+        frames = _sys._current_frames()
+        main_id = threading.main_thread().ident
+        stack = "".join(_tb.format_stack(frames.get(main_id))) if main_id in frames else "?"
+        v = dict(kind="broken-obligation", name="watchdog", case=None, impl=None, model=None, signature="broken:check-did-not-terminate",
+                 found_input=False, detail="the check did not finish within %d s; stack of the main thread:\n%s" % (limit, stack[-4000:]))
+        try:
+            path = write_replay(ctx, v)
+            print(f"VIOLATION property={pid} replay={path} no-failing-input-found", flush=True)
+        finally:
+            os._exit(1)
+    _t = threading.Timer(limit, _watchdog)
+    _t.daemon = True
+    _t.start()
     try:
         if a.replay:
             rep = json.load(open(a.replay))
